@@ -17,6 +17,7 @@
              the null branch by KEY, never by looking at possibly unfinished nodes (F42)
   shared     NEWTYPE (c03: F17), NAMEPAIR incl. the unit variant Null (c01: F24), NAMESPACE (c09), canonical-form and JSON
              guards (c19: F16)
+  SHAPES     ... the filter of the Option<union> flattening keeps every variant whose key differs from the null key
 It does NOT decide what the proc-macro generates for user types outside the corpus' shapes, nor any value-level claim.
 """
 from ..lib import *
